@@ -143,6 +143,14 @@ def mk_reducer(spec):
         return observe.NearestTraceReducer(dt, 20.0, 1.0, 1, **kw)
     if cls == "CumulativeTraceReducer":
         return observe.CumulativeTraceReducer(dt, 20.0, 1.0, 1, **kw)
+    if cls == "ScaledNearestTraceReducer":
+        return observe.ScaledNearestTraceReducer(dt, 20.0, 1.0, 0.5, lambda x: x != 0, **kw)
+    if cls == "ScaledCumulativeTraceReducer":
+        return observe.ScaledCumulativeTraceReducer(dt, 20.0, 1.0, 0.5, lambda x: x != 0, **kw)
+    if cls == "ConditionalNearestTraceReducer":
+        return observe.ConditionalNearestTraceReducer(dt, 20.0, 1.0, 0.5, **kw)
+    if cls == "ConditionalCumulativeTraceReducer":
+        return observe.ConditionalCumulativeTraceReducer(dt, 20.0, 1.0, 0.5, **kw)
     if cls == "PassthroughReducer":
         return observe.PassthroughReducer(dt, **kw)
     if cls == "EventReducer":
@@ -154,15 +162,50 @@ def mk_reducer(spec):
     raise ValueError(cls)
 
 
-EXPECTED_EXTRAS = {   # persistent non-tensor state the model of each reducer class declares (tie to the code)
-    "NearestTraceReducer": {"_data__pointer", "_initial"}, "CumulativeTraceReducer": {"_data__pointer", "_initial"},
-    "PassthroughReducer": {"_data__pointer", "_initial"}, "EventReducer": {"_data__pointer", "_initial"},
-    "EMAReducer": {"_data__pointer", "_initial"}, "CAReducer": {"_data__pointer", "_initial", "_count"},
+# Persistent fields each component MODEL declares (coq/C12/Components.v: red_keys / syn_keys / nrn_keys, proved there to be
+# the key set of the model's `save`; tools/props/c12.py checks on every run that this table is what Coq computes).
+# Tensor keys as in state_dict(); an extra x of Module._extras is written "_extra_state.x".
+_RED = ["_data__data", "_extra_state._data__pointer", "_extra_state._initial"]
+_REC = lambda name: [f"_{name}_data", f"_extra_state._{name}_pointer"]   # noqa: E731   (a RecordTensor named `name`)
+_NRN = ["_voltage__data", "_refrac__data"]
+DECLARED_FIELDS = {
+    "NearestTraceReducer": _RED, "CumulativeTraceReducer": _RED, "ScaledNearestTraceReducer": _RED,
+    "ScaledCumulativeTraceReducer": _RED, "ConditionalNearestTraceReducer": _RED, "ConditionalCumulativeTraceReducer": _RED,
+    "EventReducer": _RED, "PassthroughReducer": _RED, "EMAReducer": _RED,
+    "CAReducer": _RED + ["_extra_state._count"],
+    "DeltaCurrent": _REC("spike_"),
+    "DeltaPlusCurrent": _REC("spike_") + _REC("current_"),
+    "SingleExponentialCurrent": _REC("spike_") + _REC("current_"),
+    "DoubleExponentialCurrent": _REC("spike_") + _REC("pos_current_") + _REC("neg_current_"),
+    "LIF": _NRN, "GLIF1": _NRN, "QIF": _NRN, "EIF": _NRN,
+    "ALIF": _NRN + ["threshold_adaptation_"], "GLIF2": _NRN + ["threshold_adaptation_"],
+    "Izhikevich": _NRN + ["current_adaptation_"], "AdEx": _NRN + ["current_adaptation_"],
 }
+CONDITIONAL = ("ConditionalNearestTraceReducer", "ConditionalCumulativeTraceReducer")
+
+
+def real_fields(sd):
+    """key set of a real state dict in the model's naming: tensor keys + '_extra_state.<extra>'"""
+    ex = sd.get("_extra_state", {})
+    return {k for k in sd if k != "_extra_state"} | {"_extra_state." + k for k in (ex if isinstance(ex, dict) else {})}
+
+
+def fields_failure(cls, sd, when=""):
+    got, want = real_fields(sd), set(DECLARED_FIELDS[cls])
+    if got == want:
+        return None
+    return {"ok": False, "what": "persistent_fields_differ", "cls": cls,
+            "detail": f"state_dict of {cls}{when}: only in the real class {sorted(got - want)}, only in the model {sorted(want - got)}"}
+
+
+def feed(red, cls, x):
+    """one forward of a reducer (the conditional classes take (observation, condition))"""
+    return red(x, x > 1) if cls in CONDITIONAL else red(x)
 
 
 def run_reducer(case):
     T, k = case["T"], case["k"]
+    rcls = case["spec"]["cls"]
     extra = 3
     g = torch.Generator().manual_seed(case["seed"])
     xs = [(torch.rand(case["shape"], generator=g) < 0.4).double() * (1 + (t % 3)) for t in range(T + extra)]
@@ -173,17 +216,16 @@ def run_reducer(case):
             ck = sd_copy(A)
         if t == case.get("src_clear_at"):
             A.clear(keepshape=True)        # a source that was cleared (shape kept) and keeps running
-        A(xs[t])
+        feed(A, rcls, xs[t])
         outs.append(None if A.peek() is None else A.peek().clone())
     finalA = sd_copy(A)
-    got = set(ck.get("_extra_state", {}))
-    if got != EXPECTED_EXTRAS[case["spec"]["cls"]]:
-        return {"ok": False, "what": "persistent_fields_differ",
-                "detail": f"extra state of {case['spec']['cls']} is {sorted(got)}, model declares {sorted(EXPECTED_EXTRAS[case['spec']['cls']])}"}
+    ff = fields_failure(rcls, ck, f" at step {k}")
+    if ff:
+        return ff
     Bm = mk_reducer(case["spec"])
     g2 = torch.Generator().manual_seed(case["seed"] + 3)
     for _ in range(case.get("prior", 1)):
-        Bm((torch.rand(case["shape"], generator=g2) < 0.4).double())
+        feed(Bm, rcls, (torch.rand(case["shape"], generator=g2) < 0.4).double())
     if case.get("target_cleared"):
         Bm.clear(keepshape=True)           # target run on other data, then cleared (lazily shaped storage kept)
     try:
@@ -197,7 +239,7 @@ def run_reducer(case):
     for t in range(k, T + extra):
         if t == case.get("src_clear_at"):
             Bm.clear(keepshape=True)
-        Bm(xs[t])
+        feed(Bm, rcls, xs[t])
         if not out_equal(Bm.peek(), outs[t]):
             return {"ok": False, "what": "future_output_differs", "detail": f"reducer value at step {t} (checkpoint at {k}) differs"}
     d = sd_equal(finalA, sd_copy(Bm))
@@ -280,7 +322,110 @@ def run_classifier(case):
     return {"ok": True, "events": T, "keys": len(ck)}
 
 
-RUN = {"layer": run_layer, "reducer": run_reducer, "record": run_record, "classifier": run_classifier}
+# ---------------------------------------------------------------- bare components (the models of coq/C12/Components.v)
+def mk_component(cls, dt=1.0, delay=2.0, shape=(3,), batch=2, inplace=False):
+    if cls in factory.SYNAPSE_DEFAULTS:
+        return factory.build_synapse({"cls": cls, "shape": list(shape), "dt": dt, "batch": batch,
+                                      "kw": {"delay": delay, "inplace": inplace}})
+    if cls in factory.NEURON_DEFAULTS:
+        return factory.build_neuron({"cls": cls, "shape": list(shape), "dt": dt, "batch": batch})
+    return mk_reducer({"cls": cls, "dt": dt, "duration": delay, "inplace": inplace})
+
+
+def drive(comp, cls, g, shape, batch):
+    """one step of a bare component on fresh random input; returns what the caller observes"""
+    if cls in factory.SYNAPSE_DEFAULTS:
+        x = torch.rand((batch, *shape), generator=g) < 0.5
+        if cls == "DeltaPlusCurrent":
+            out = comp(x, torch.rand((batch, *shape), generator=g))
+        else:
+            out = comp(x)
+        return [out.clone(), comp.spike.clone(), comp.current.clone()]
+    if cls in factory.NEURON_DEFAULTS:
+        out = comp(torch.rand((batch, *shape), generator=g) * 300.0 - 20.0)
+        return [out.clone(), comp.voltage.clone(), comp.refrac.clone()]
+    feed(comp, cls, (torch.rand(shape, generator=g) < 0.4).double() * 2)
+    return [None if comp.peek() is None else comp.peek().clone()]
+
+
+def run_fields(case):
+    """key set of the REAL class's state dict (fresh, stepped, cleared) vs the model's declared persistent fields"""
+    cls = case["cls"]
+    g = torch.Generator().manual_seed(case.get("seed", 0))
+    shape, batch = (3,), 2
+    isred = cls not in factory.SYNAPSE_DEFAULTS and cls not in factory.NEURON_DEFAULTS
+    m = mk_component(cls, delay=case.get("delay", 2.0))
+    stages = [("fresh", lambda: None), ("stepped", lambda: drive(m, cls, g, shape, batch)),
+              ("cleared", lambda: m.clear(keepshape=True) if isred else m.clear()),
+              ("stepped again", lambda: drive(m, cls, g, shape, batch))]
+    if cls in factory.NEURON_DEFAULTS:
+        stages.append(("eval mode", lambda: m.eval()))
+    for when, act in stages:
+        act()
+        ff = fields_failure(cls, sd_copy(m), f" ({when})")
+        if ff:
+            return ff
+    return {"ok": True, "events": 1, "keys": len(DECLARED_FIELDS[cls])}
+
+
+def run_component(case):
+    """a bare synapse / neuron: checkpoint at step k, strict load into another instance of the same configuration that has
+    run `prior` steps on other data, compare every later observation and the final state dict (model: synapse_resume /
+    neuron_resume of coq/C12/ComponentsProofs.v)"""
+    cls, T, k = case["cls"], case["T"], case["k"]
+    shape, batch = tuple(case["shape"]), case["B"]
+    mk = lambda: mk_component(cls, case["dt"], case.get("delay", 0.0), shape, batch, case.get("inplace", False))  # noqa: E731
+    issyn = cls in factory.SYNAPSE_DEFAULTS
+    sel = None
+    if issyn and case.get("delay", 0.0) > 0:
+        gs = torch.Generator().manual_seed(case["seed"] + 5)
+        sel = torch.rand((batch, *shape, 2), generator=gs) * case["delay"]
+
+    def observe_at(m):
+        if sel is None:
+            return []
+        return [m.current_at(sel).clone(), m.spike_at(sel).clone()]
+    A = mk()
+    gA = torch.Generator().manual_seed(case["seed"])
+    gB = torch.Generator().manual_seed(case["seed"])
+    outs, ck = [], None
+    for t in range(T):
+        if t == k:
+            ck = sd_copy(A)
+            gB.set_state(gA.get_state())
+        if t == case.get("clear_at"):
+            A.clear()
+        outs.append(drive(A, cls, gA, shape, batch) + observe_at(A))
+    if k == T:
+        ck = sd_copy(A)
+    finalA = sd_copy(A)
+    ff = fields_failure(cls, ck, f" at step {k}")
+    if ff:
+        return ff
+    Bm = mk()
+    g2 = torch.Generator().manual_seed(case["seed"] + 7)
+    for _ in range(case.get("prior", 0)):
+        drive(Bm, cls, g2, shape, batch)
+    if case.get("target_cleared"):
+        Bm.clear()
+    try:
+        Bm.load_state_dict(ck, strict=True)
+    except Exception as e:  # noqa
+        return {"ok": False, "what": "load_failed", "detail": f"{type(e).__name__}: {str(e)[:400]}"}
+    for t in range(k, T):
+        if t == case.get("clear_at"):
+            Bm.clear()
+        o = drive(Bm, cls, gB, shape, batch) + observe_at(Bm)
+        if not out_equal(o, outs[t]):
+            return {"ok": False, "what": "future_output_differs", "detail": f"{cls}: observation at step {t} (checkpoint at {k}) differs"}
+    d = sd_equal(finalA, sd_copy(Bm))
+    if d:
+        return {"ok": False, "what": "final_state_differs", "detail": d}
+    return {"ok": True, "events": int(sum(float(o[0].sum()) for o in outs)), "keys": len(ck)}
+
+
+RUN = {"layer": run_layer, "reducer": run_reducer, "record": run_record, "classifier": run_classifier,
+       "fields": run_fields, "synapse": run_component, "neuron": run_component}
 
 
 def handler(payload):
